@@ -36,6 +36,27 @@ def findings_table(status):
     return head + '\n'.join(rows) + '\n'
 
 
+def strengthened(prop):
+    """what was added to the property's check after a seeded change slipped through (from seeded/*/meta.json)"""
+    import re
+    sd = os.path.join(HERE, 'seeded')
+    rows = []
+    for nm in sorted(os.listdir(sd)) if os.path.isdir(sd) else []:
+        mp = os.path.join(sd, nm, 'meta.json')
+        if not nm.startswith(prop + '-') or not os.path.exists(mp):
+            continue
+        m = json.load(open(mp))
+        c = m.get('caught_by_check', '')
+        mt = re.search(r'after (?:strengthening|the [^)]*?)[:]? ?(.*)\)\s*$', c)
+        if 'after' in c:
+            why = c[c.index('after'):]
+            why = why[:-1] if why.endswith(')') else why
+            rows.append(f'* {nm}: {why}')
+    if not rows:
+        return ''
+    return ('\n**Added to this check after seeded changes slipped through** (section 7):\n' + '\n'.join(rows) + '\n')
+
+
 def main():
     parts = [open(os.path.join(D, '00_head.md')).read()]
     for n in range(1, 21):
@@ -48,7 +69,7 @@ def main():
                 if ln.startswith('#'):
                     ln = '##' + ln
                 lines.append(ln)
-            parts.append('\n' + '\n'.join(lines) + '\n')
+            parts.append('\n' + '\n'.join(lines) + '\n' + strengthened(f'C{n:02d}'))
         else:
             parts.append(f'\n### C{n:02d} — (check not built yet)\n')
     tail = open(os.path.join(D, '99_tail.md')).read()
